@@ -62,8 +62,10 @@ fn dealer_refresh<C: Ciphersuite, L: Lab<C>>(lab: &mut L, keys: &Keys<C>, rem: &
     let (rshares, newpub) = r.unwrap();
     lab.check(rshares.len() == rem.len(), "one refreshing share per remaining participant");
     let mut kps = BTreeMap::new();
-    for rs in rshares {
-        let id = *rs.identifier();
+    // documented: the shares "must be sent to the participants in the same order as `identifiers`"
+    for (i, rs) in rshares.into_iter().enumerate() {
+        let Some(id) = rem.get(i).copied() else { break };
+        lab.check(*rs.identifier() == id, "refreshing share number i is the one for identifier number i of the list handed in (documented order)");
         let r = refresh_share(rs, &keys.0[&id]);
         if !lab.check(r.is_ok(), "refresh_share accepts the dealer's refreshing share") {
             lab.leave();
